@@ -41,6 +41,7 @@ import (
 	"time"
 
 	"github.com/nspcc-dev/neofs-node/pkg/local_object_storage/blobstor/common"
+	"github.com/nspcc-dev/neofs-node/pkg/local_object_storage/blobstor/fstree"
 	"github.com/nspcc-dev/neofs-node/pkg/local_object_storage/shard"
 	"github.com/nspcc-dev/neofs-node/pkg/local_object_storage/writecache"
 	"github.com/nspcc-dev/neofs-node/verifharness/faultstore"
@@ -155,6 +156,8 @@ type Rig struct {
 	pauseAddr *oid.Address
 	paused    chan struct{}
 	resume    chan struct{}
+	// Parked holds the addresses of the blob write the flusher is (was last) parked in front of.
+	Parked []oid.Address
 }
 
 // Dir returns the live shard directory.
@@ -251,6 +254,7 @@ func (r *Rig) before(comp, m string, addrs []oid.Address) {
 		for _, a := range addrs {
 			if a == *r.pauseAddr {
 				r.pauseAddr = nil
+				r.Parked = append([]oid.Address(nil), addrs...)
 				paused, resume := r.paused, r.resume
 				r.mu.Unlock()
 				paused <- struct{}{}
@@ -421,7 +425,10 @@ func (w *wcTap) Delete(a oid.Address) error {
 func (r *Rig) OpenSnapshot(dir string, epoch uint64) (*shard.Shard, *stor.Epoch, error) {
 	ep := &stor.Epoch{}
 	ep.Set(epoch)
-	sh, err := stor.OpenShard(r.shardCfg(dir, ep, nil))
+	c := r.shardCfg(dir, ep, nil)
+	// no 10 ms combined-write window in the restarted copy (keeps the fake clock still)
+	c.FSTOpts = []fstree.Option{fstree.WithCombinedCountLimit(1)}
+	sh, err := stor.OpenShard(c)
 	return sh, ep, err
 }
 
